@@ -30,8 +30,22 @@ Theorem C02_decodes_back : forall (b : backend) kq ku (t : str),
 Proof. exact unquote_quote_roundtrip. Qed.
 Print Assumptions C02_decodes_back.
 
-(** PARTIAL: for the requoters (constructor path: "%XY" of the input is an escape) the
-    preservation of tokens and of the escaped-vs-literal status of '/', '&', '=', '+', ';'
+(** For the requoters (the constructor: "%XY" in the input is an escape) and every string,
+    the canonical text stands for exactly the bytes the supplied text stands for: a valid
+    escape keeps its byte whether it stays escaped or is decoded to a literal, a malformed
+    '%' becomes %25, every other character its UTF-8 escapes or itself; under qs a space
+    becomes '+' and a literal '+' stays (both read as a space), and %2B is never decoded. *)
+Theorem C02_requoter_bytes : forall kq (s : str),
+  In kq [REQUOTER; PATH_REQUOTER; QUERY_REQUOTER; FRAGMENT_REQUOTER] -> valid_str s ->
+  meaning_bytes (e_qs (eff_of kq)) (qspec (eff_of kq) s) = meaning_bytes (e_qs (eff_of kq)) s.
+Proof.
+  intros kq s Hin Hv. destruct (requoters_ok kq Hin) as (Hok & Hreq & Hp1 & Hp2).
+  now apply requoter_preserves_bytes.
+Qed.
+Print Assumptions C02_requoter_bytes.
+
+(** PARTIAL: for the requoters the bytes are proved (above); the escaped-vs-literal status (constructor path: "%XY" of the input is an escape) the
+    of '/', '&', '=', '+', ';' (hence the number and boundaries of segments and pairs)
     is the executable predicate c02_pred (Preds/P02.v), checked on the implementation and on
     the model; the decode tables (C04_decode_table: a requoter decodes exactly the escapes of
     literal, unprotected ASCII characters) are proved by complete sweep. *)
